@@ -213,12 +213,6 @@ if payload.get("stream_cases"):
                 tr.outrank_task_conduct_ranking(args)
             except SystemExit:
                 pass
-            except FileNotFoundError as e:
-                # known observation (DESIGN 9.2 / C09): with --heuristic Constant no checkpoint is written and the task ends at
-                # os.remove('ranking_checkpoint_tmp.tsv') AFTER all outputs, the report included, have been written
-                if "ranking_checkpoint_tmp" not in str(e):
-                    raise
-                o["late_error"] = str(e)
             with open(os.path.join(out_dir, "combination_estimation_counts.json")) as f:
                 o["report"] = json.load(f)
         except BaseException as e:
